@@ -881,7 +881,7 @@ struct Digit {
             } else {
                 stream += DigitUtils::DigitChar::Zero;
 
-                if (format.Type == RealFormatType::Fixed) {
+                if ((format.Type == RealFormatType::Fixed) && (format.Precision != 0U)) {
                     stream += DigitUtils::DigitChar::Dot;
                     insertZerosLarge(stream, format.Precision);
                 }
@@ -1126,6 +1126,10 @@ struct Digit {
                         } else if (!power_increased) {
                             stream += DigitUtils::DigitChar::Dot;
                             stream += DigitUtils::DigitChar::Zero;
+                        } else if (index == stream.Length()) {
+                            // No digit is kept (precision 0) and the carry left the digits: the number is one.
+                            --index;
+                            storage[index] = DigitUtils::DigitChar::One;
                         }
                     } else {
                         --index;
@@ -1159,7 +1163,9 @@ struct Digit {
         stream.StepBack(index - started_at);
 
         if QENTEM_CONST_EXPRESSION (Fixed_T) {
-            if ((dot_index == index) || ((stream.Length() - started_at) == SizeT{1}) ||
+            if (precision == 0) {
+                // No fraction digits: no decimal point either.
+            } else if ((dot_index == index) || ((stream.Length() - started_at) == SizeT{1}) ||
                 (!fraction_only && power_increased)) {
                 stream += DigitUtils::DigitChar::Dot;
                 insertZerosLarge(stream, precision);
